@@ -493,7 +493,7 @@ package wal
 //@   requires newState.nextSegmentID < 0xfffffffffffffff0 && newState.tail.last < 0xffffffffffffff00
 //@   requires smmax(newState.segments) < 0xffffffffffffff00
 //@   requires[C04.head-newmin] newMin != 0 && (EmptyLog(newState) || newMin >= smget(newState.segments, smmin(newState.segments)).MinIndex)
-//@   assigns newState.segments, newState.nextSegmentID, newState.nextBaseIndex
+//@   assigns newState.segments, newState.nextSegmentID, newState.nextBaseIndex, nTruncated
 //@   loop 1 invariant newState.segments != nil
 //@   loop 1 invariant itvalid(it) ==> smhas(old(newState.segments), itcur(it))
 //@   loop 1 invariant forall k uint64 :: {smhas(newState.segments, k)} smhas(newState.segments, k) ==> smhas(old(newState.segments), k) && itvalid(it) && k >= itcur(it)
@@ -517,7 +517,7 @@ package wal
 //@   ensures[C13.head-deletes-all] result2 == nil && result1 != nil ==> (forall k uint64 :: {smhas(old(newState.segments), k)} smhas(old(newState.segments), k)
 //@        ==> mhas(toDelete, old(smget(newState.segments, k).ID)) && mget(toDelete, old(smget(newState.segments, k).ID)) == k)
 //@   ensures[C13.head-spares-live] result2 == nil ==> (forall k uint64 :: {smhas(newState.segments, k)} smhas(newState.segments, k) ==> !mhas(toDelete, smget(newState.segments, k).ID))
-//@   ensures[C20.head-count] result2 == nil ==> counter("head_truncations") == old(counter("head_truncations"))
+//@   ensures[C20.head-count] result2 == nil ==> nTruncated == 0
 //@        + ite(old(EmptyLog(newState)), 0, ite(newMin > old(LastOf(newState)), old(LastOf(newState)) - old(FirstSegMin(newState)) + 1, newMin - old(FirstSegMin(newState))))
 //@   ensures[C04.head-applied] result2 == nil && old(LastOf(newState)) >= newMin ==> smnonempty(newState.segments) && smget(newState.segments, smmin(newState.segments)).MinIndex == newMin
 //@        && smmax(newState.segments) == old(smmax(newState.segments)) && (newState.tail.last == 0 ==> smmin(newState.segments) != smmax(newState.segments)) && result1 == nil
@@ -532,7 +532,7 @@ package wal
 //@   cbinv w != nil && w.codec != nil && w.sf != nil && w.metrics != nil
 //@   requires Headroom(newState)
 //@   requires[C04.tail-newmax] FirstOf(newState) != 0 && FirstOf(newState) <= newMax && newMax < LastOf(newState)
-//@   assigns newState.segments, newState.nextSegmentID, newState.tail.sealed, newState.tail.indexStart
+//@   assigns newState.segments, newState.nextSegmentID, newState.tail.sealed, newState.tail.indexStart, nTruncated
 //@   loop 1 invariant newState.segments != nil
 //@   loop 1 invariant itvalid(it) ==> smhas(old(newState.segments), itcur(it))
 //@   loop 1 invariant forall k uint64 :: {smhas(newState.segments, k)} smhas(newState.segments, k) ==> smhas(old(newState.segments), k) && itvalid(it) && k <= itcur(it)
@@ -556,7 +556,7 @@ package wal
 //@   ensures[C13.tail-deletes-dropped] result2 == nil ==> (forall k uint64 :: {smhas(old(newState.segments), k)} smhas(old(newState.segments), k) && k > newMax
 //@        ==> mhas(toDelete, old(smget(newState.segments, k).ID)) && mget(toDelete, old(smget(newState.segments, k).ID)) == k)
 //@   ensures[C13.tail-spares-live] result2 == nil ==> (forall k uint64 :: {smhas(newState.segments, k)} smhas(newState.segments, k) ==> !mhas(toDelete, smget(newState.segments, k).ID))
-//@   ensures[C20.tail-count] result2 == nil ==> counter("tail_truncations") == old(counter("tail_truncations")) + (old(LastOf(newState)) - newMax)
+//@   ensures[C20.tail-count] result2 == nil ==> nTruncated == old(LastOf(newState)) - newMax
 //@   ensures[C13.tail-fresh-id] result2 == nil ==> newState.nextSegmentID == old(newState.nextSegmentID) + 1 && smget(newState.segments, smmax(newState.segments)).ID == old(newState.nextSegmentID)
 
 //@ -- rotation under the write lock (called by the background goroutine once the
